@@ -88,6 +88,21 @@ class Check:
     def error(self, msg: str) -> None:
         self.errors.append(msg)
 
+    def borrow(self, rule: str, text: str, fn: Any, *args: Any, only: Any = None) -> None:
+        """Run rule function(s) of another property's module on a private Check and adopt their obligations under
+        `rule` of THIS property (same construct keys). Floors / analysis errors of the borrowed run are adopted too."""
+        sub = Check(self.pid, self.tier, self.seed, quiet=True)
+        fn(sub, *args)
+        self.rule(rule, text)
+        for o in sub.obls:
+            if only is not None and not only(o):
+                continue
+            self.obls.append(type(o)(f"{self.pid}-{rule}", o.construct, o.loc, o.verdict, o.message, o.nontrivial, o.detail))
+        for e in sub.errors:
+            self.errors.append(f"{self.pid}-{rule} (borrowed): {e}")
+        for fk in sub.functions if hasattr(sub, "functions") else []:
+            self.analysed(fk)
+
     def analysed(self, *funcs: str) -> None:
         self.functions.update(funcs)
 
